@@ -794,6 +794,18 @@ def _gen_diff(g):
             kw[name] = len(ops)
             kind = ops[0]["kind"] if g.rng.random() < 0.6 else g.rng.choice(["int", "float", "complex"])
             ops.append(poly_of(g, tuple(pshape), maxexp=2, kind=kind))
+            if g.rng.random() < 0.3 and ops[0]["k"] == "poly":
+                # the same exponent table as the array, over other indeterminates (q0 -> q1 ...):
+                # equal storage keys, different polynomials
+                extra = ops[-1]
+                extra["names"] = ["q%d" % (int(n[1:]) + 1) for n in ops[0]["names"]]
+                extra["exps"] = [list(r) for r in ops[0]["exps"]]
+                extra["kind"] = ops[0]["kind"]
+                extra.pop("dtype", None)
+                extra.pop("view", None)
+                extra["coefs"] = G.nested_map(G.jnum, [g.array_data(tuple(pshape), ops[0]["kind"],
+                                                                    zero_prob=0.1)
+                                                       for _ in extra["exps"]])
     if "prepend" in kw and g.rng.random() < 0.5:
         kw["positional"] = True
     return {"operands": ops, "kw": kw}
